@@ -111,6 +111,9 @@ class BaseG2Ciphersuite(ABC):
 
     @staticmethod
     def KeyValidate(PK: BLSPubkey) -> bool:
+        if not BaseG2Ciphersuite._is_valid_pubkey(PK):
+            return False
+
         try:
             pubkey_point = pubkey_to_G1(PK)
         except (ValidationError, ValueError, AssertionError):
